@@ -697,3 +697,45 @@ func derivesFromValue(v, root ssa.Value, depth int) bool {
 	}
 	return false
 }
+
+// ruleNewEventCarriesLogger: every event a logger creates carries that logger's hooks and Go
+// context, unconditionally: `e.ch = l.hooks` and `e.ctx = l.ctx` are stored on every path of
+// (*Logger).newEvent that returns an event (a copy made only "when there are hooks" loses the
+// context for marshalers and Func callbacks of hook-less loggers).
+func ruleNewEventCarriesLogger(r *Run, p *Prog) {
+	ne := p.Method("", "Logger", "newEvent")
+	pne := p.Func("", "newEvent")
+	if !r.Anchor(ne != nil, "A12", "(*Logger).newEvent") {
+		return
+	}
+	v := p.View(ne, "keep-newEvent", func(g *ssa.Function) bool { return g == pne })
+	paths, complete := enumPaths(v, 1, 4000)
+	if !complete {
+		r.Fail("A12", FnName(ne)+"/carries-logger", p.Pos(ne.Pos()), "cannot enumerate paths")
+		return
+	}
+	for _, fld := range []string{"ctx", "ch"} {
+		src := map[string]string{"ctx": "ctx", "ch": "hooks"}[fld]
+		okAll, n := true, 0
+		for _, pa := range paths {
+			ret, isRet := pa.Exit.(*ssa.Return)
+			if !isRet || len(ret.Results) != 1 || isNilConst(pa.Resolve(ret.Results[0])) {
+				continue
+			}
+			n++
+			stored := false
+			for _, in := range pa.Instrs() {
+				if st, ok := in.(*ssa.Store); ok {
+					if fa, ok := st.Addr.(*ssa.FieldAddr); ok && typeIs(fa.X.Type(), modPath, "Event") && fname(fieldVar(fa)) == fld {
+						stored = isFieldOfParam(st.Val, v, 0, src)
+					}
+				}
+			}
+			if !stored {
+				okAll = false
+			}
+		}
+		okc := okAll && n > 0
+		r.Ob("A12", FnName(ne)+"/carries-logger:"+fld, p.Pos(ne.Pos()), okc, true, tern(okc, "every event gets the logger's "+src, "some path of newEvent returns an event without storing the logger's "+src+" into it (e.g. only when the logger has hooks): marshalers and callbacks of such events see the background context / no hooks instead of the logger's"))
+	}
+}
